@@ -80,6 +80,17 @@ pub fn rand_history(r: &mut Rng, nmax: usize) -> (Vec<Op>, String) {
         }
         ops.push(Op::Push(fr.at(p.0, p.1), "outline"));
     }
+    if n >= 5 && r.chance(0.1) {
+        // a last vertex whose CLOSING edge crosses an earlier edge at its midpoint, optionally followed by a
+        // redundant vertex on that closing edge (which close() pops before it tests the closing edge)
+        let j = 1 + r.below((n - 3) as u64) as usize;
+        let (a, b) = (poly[j], poly[j + 1]);
+        let m = ((a.0 + b.0) / 2.0, (a.1 + b.1) / 2.0);
+        let p0 = poly[0];
+        let q = (m.0 + (m.0 - p0.0) * 0.6, m.1 + (m.1 - p0.1) * 0.6);
+        ops.push(Op::Push(fr.at(q.0, q.1), "closing-edge-crosses"));
+        if r.chance(0.5) { let t = r.range(0.1, 0.3); ops.push(Op::Push(fr.at(q.0 + t * (p0.0 - q.0), q.1 + t * (p0.1 - q.1)), "on-closing-edge")); }
+    }
     if r.chance(0.15) { ops.push(Op::Push(fr.at(poly[0].0, poly[0].1), "repeat-first")); }
     if r.chance(0.9) { ops.push(Op::Close); }
     if r.chance(0.3) { ops.push(Op::Push(fr.at(c.0, c.1), "after-close")); }
